@@ -276,6 +276,10 @@ def find_entries(
     if id:
         conditions.append('e.id = ?')
         params.append(id)
+    # forms may be contributed by lexicon extensions, so they are
+    # restricted to the selected lexicons just like the entries
+    in_lex = f'AND lexicon_rowid IN ({_qs(lexicon_rowids)})' if lexicon_rowids else ''
+    f_in_lex = f'AND f.lexicon_rowid IN ({_qs(lexicon_rowids)})' if lexicon_rowids else ''
     if forms:
         cte = f'WITH wordforms(s) AS (VALUES {_vs(forms)})'
         or_norm = 'OR normalized_form IN wordforms' if normalized else ''
@@ -284,9 +288,9 @@ def find_entries(
             e.rowid IN
                (SELECT entry_rowid
                   FROM forms
-                 WHERE (form IN wordforms {or_norm}) {and_rank})
+                 WHERE (form IN wordforms {or_norm}) {and_rank} {in_lex})
         '''.strip())
-        params.extend(forms)
+        params.extend(lexicon_rowids)
     if pos:
         conditions.append('e.pos = ?')
         params.append(pos)
@@ -303,10 +307,12 @@ def find_entries(
         SELECT DISTINCT e.lexicon_rowid, e.rowid, e.id, e.pos,
                         f.form, f.id, f.script, f.rowid
           FROM entries AS e
-          JOIN forms AS f ON f.entry_rowid = e.rowid
+          JOIN forms AS f ON f.entry_rowid = e.rowid {f_in_lex}
          {condition}
          ORDER BY e.rowid, e.id, f.rank
     '''
+    # placeholders of the CTE and of the join precede those of the conditions
+    params = [*forms, *lexicon_rowids, *params]
 
     rows: Iterator[
         tuple[int, int, str, str, str, Optional[str], Optional[str], int]
@@ -337,19 +343,24 @@ def find_senses(
         cte = f'WITH wordforms(s) AS (VALUES {_vs(forms)})'
         or_norm = 'OR normalized_form IN wordforms' if normalized else ''
         and_rank = '' if search_all_forms else 'AND rank = 0'
+        in_lex = ''
+        if lexicon_rowids:
+            in_lex = f'AND lexicon_rowid IN ({_qs(lexicon_rowids)})'
         conditions.append(f'''
             s.entry_rowid IN
                (SELECT entry_rowid
                   FROM forms
-                 WHERE (form IN wordforms {or_norm}) {and_rank})
+                 WHERE (form IN wordforms {or_norm}) {and_rank} {in_lex})
         '''.strip())
-        params.extend(forms)
+        params.extend(lexicon_rowids)
     if pos:
         conditions.append('e.pos = ?')
         params.append(pos)
     if lexicon_rowids:
         conditions.append(f's.lexicon_rowid IN ({_qs(lexicon_rowids)})')
         params.extend(lexicon_rowids)
+    # placeholders of the CTE precede those of the conditions
+    params = [*forms, *params]
 
     condition = ''
     if conditions:
@@ -390,14 +401,20 @@ def find_synsets(
         cte = f'WITH wordforms(s) AS (VALUES {_vs(forms)})'
         or_norm = 'OR normalized_form IN wordforms' if normalized else ''
         and_rank = '' if search_all_forms else 'AND rank = 0'
+        in_lex = ''
+        if lexicon_rowids:
+            in_lex = (f'AND f.lexicon_rowid IN ({_qs(lexicon_rowids)}) '
+                      f'AND _s.lexicon_rowid IN ({_qs(lexicon_rowids)})')
         join = f'''\
           JOIN (SELECT _s.entry_rowid, _s.synset_rowid, _s.entry_rank
                   FROM forms AS f
                   JOIN senses AS _s ON _s.entry_rowid = f.entry_rowid
-                 WHERE (f.form IN wordforms {or_norm}) {and_rank}) AS s
+                 WHERE (f.form IN wordforms {or_norm}) {and_rank} {in_lex}) AS s
             ON s.synset_rowid = ss.rowid
         '''.strip()
         params.extend(forms)
+        params.extend(lexicon_rowids)
+        params.extend(lexicon_rowids)
         order = 'ORDER BY s.entry_rowid, s.entry_rank'
     if pos:
         conditions.append('ss.pos = ?')
